@@ -126,6 +126,7 @@ fn take_panic() -> (String, String) {
 /// true if a panic location belongs to the subject (the repository or the field derive it uses).
 fn location_is_subject(loc: &str) -> bool {
     loc.starts_with("/repo/")
+        || loc.starts_with(&format!("{}/", repo_root()))
         || loc.contains("ff_derive")
         || loc.contains("ff-zeroize")
         || loc.contains("curve_impl_extracted.rs")
@@ -147,6 +148,15 @@ pub fn guard<T>(f: impl FnOnce() -> T) -> Result<T, String> {
 /// class names that are recorded but do not count as non-trivial
 pub fn is_trivial_class(c: &str) -> bool {
     matches!(c, "" | "identity operand" | "identity" | "nothing to do" | "identical" | "different")
+}
+
+/// output root (evidence, replays, known findings) and subject root; overridable so that a copy of the harness
+/// can be run against a copy of the subject (seeded/regress.sh) without touching /verif and /repo
+pub fn verif_root() -> String {
+    std::env::var("PPVERIF_ROOT").unwrap_or_else(|_| "/verif".to_string())
+}
+pub fn repo_root() -> String {
+    std::env::var("PPVERIF_REPO").unwrap_or_else(|_| "/repo".to_string())
 }
 
 pub struct SplitMix(pub u64);
@@ -509,8 +519,8 @@ impl Ctx {
             "machinery_errors": g.machinery,
         });
         if self.replay.is_none() {
-            let path = format!("/verif/evidence/{}.json", self.id);
-            let _ = std::fs::create_dir_all("/verif/evidence");
+            let path = format!("{}/evidence/{}.json", verif_root(), self.id);
+            let _ = std::fs::create_dir_all(format!("{}/evidence", verif_root()));
             if let Err(e) = std::fs::write(&path, serde_json::to_string_pretty(&ev).unwrap()) {
                 eprintln!("MACHINERY: cannot write evidence {}: {}", path, e);
                 return 2;
@@ -538,13 +548,13 @@ impl Ctx {
             );
             return 0;
         }
-        let _ = std::fs::create_dir_all("/verif/replays");
+        let _ = std::fs::create_dir_all(format!("{}/replays", verif_root()));
         for v in new_viol.iter().take(5) {
             let mut h: u64 = 0xcbf29ce484222325;
             for b in format!("{}|{}|{}", v.sub, v.index, v.desc).bytes() {
                 h = (h ^ b as u64).wrapping_mul(0x100000001b3);
             }
-            let path = format!("/verif/replays/{}-{:016x}.json", self.id, h);
+            let path = format!("{}/replays/{}-{:016x}.json", verif_root(), self.id, h);
             let rp = json!({
                 "property": self.id, "sub": v.sub, "index": v.index, "tier": self.tier.name(), "seed": self.seed,
                 "desc": v.desc, "detail": v.detail,
@@ -570,7 +580,7 @@ pub struct Known {
 
 pub fn load_known_findings() -> Vec<Known> {
     let mut out = vec![];
-    if let Ok(s) = std::fs::read_to_string("/verif/known_findings.json") {
+    if let Ok(s) = std::fs::read_to_string(format!("{}/known_findings.json", verif_root())) {
         if let Ok(Value::Object(m)) = serde_json::from_str::<Value>(&s) {
             if let Some(Value::Array(a)) = m.get("findings") {
                 for e in a {
